@@ -223,8 +223,9 @@ def main():
         "hooks": {
             "guard": "LASIO_VERIF",
             "enable": "no source hooks are needed: all seams are outside /repo (patched builtins.open/io.open/"
-                      "os.path.getsize for /simfs/*, file-like arguments, module-attribute wrappers, the lasio logger, "
-                      "sys.settrace); checks import lasio from the /repo working tree as it is",
+                      "os.path.getsize and os.open/os.read/os.close for /simfs/* paths and descriptors, file-like arguments, "
+                      "module-attribute wrappers, the lasio logger, sys.settrace, every fourth worker under python -O); checks "
+                      "import lasio from the /repo working tree as it is",
             "baseline_off_cmd": "cd /repo && /venv/bin/python -m pytest -ra -q -p no:cacheprovider --timeout=900 "
                                 "--continue-on-collection-errors",
             "source_commits": [],
